@@ -4,7 +4,7 @@
    rationals (Qc), so "=" below is equality of values and Jacobians entry by entry. *)
 From Coq Require Import List ZArith QArith Qcanon Bool Lia.
 Import ListNotations.
-From PP Require Import Model.C02 Proofs.C02.
+From PP Require Import Model.C02 Proofs.C02 Proofs.C02_value.
 Local Open Scope Qc_scope.
 
 (* Evaluating ANY tree without reverse-operation nodes through the parser (operand flips for
@@ -118,6 +118,24 @@ Theorem C02_shift_time_semantics :
 Proof. exact shift_time_semantics. Qed.
 Print Assumptions C02_shift_time_semantics.
 
+(* Values with and without derivative agree: for every tree without reverse-operation nodes
+   and every environment, if the evaluation with derivative succeeds with result r, the
+   evaluation of the SAME tree on the same state and stores without derivative succeeds
+   with r stripped of its Jacobian (although the parser then flips add/sub operands wherever
+   the first operand is an array, i.e. at different nodes); for the post-processed results of
+   AdParser.evaluate the carried values coincide (a scalar becomes a one-entry AdArray). *)
+Theorem C02_value_agrees :
+  forall (t : tree) (e : env) (r : value),
+    no_rops t = true -> parse t (with_deriv true e) = Ok r ->
+    parse t (with_deriv false e) = Ok (strip r) /\
+    (forall r1, evaluate t (with_deriv true e) = Ok r1 ->
+       exists r0, evaluate t (with_deriv false e) = Ok r0 /\ val_of r0 = val_of r1).
+Proof.
+  intros t e r Hn H. split; [exact (value_agrees t e r Hn H)|].
+  intros r1 H1. exact (evaluate_value_agrees t e r1 Hn H1).
+Qed.
+Print Assumptions C02_value_agrees.
+
 (* Non-vacuity:  arr - x / 2  and  arr / x  with a numpy array on the left, on a state of two
    dofs: the parser's flipped / redirected evaluation and the direct semantics give the
    displayed value and Jacobian. *)
@@ -141,5 +159,9 @@ Example C02_nonvacuous :
   shift_tree true 1 (Bin Sub x xp)
   = Ok (Bin Sub (Leaf (LVar [0%nat; 1%nat] 0 (-1))) (Leaf (LVar [1%nat; 0%nat] 1 (-1)))) /\
   res_eqb (parse (Bin Sub (Leaf (LVar [0%nat; 1%nat] 0 (-1))) (Leaf (LVar [1%nat; 0%nat] 1 (-1)))) e)
-          (Ok (VVec [Q2Qc (-40); Q2Qc (-10)])) = true.
+          (Ok (VVec [Q2Qc (-40); Q2Qc (-10)])) = true /\
+  (* the same trees without derivative: the stripped results *)
+  e = with_deriv true e /\
+  res_eqb (parse t1 (with_deriv false e)) (Ok (VVec [Q2Qc 0; Q2Qc (15 # 4)])) = true /\
+  res_eqb (parse t2 (with_deriv false e)) (Ok (VVec [Q2Qc (1 # 2); Q2Qc 8])) = true.
 Proof. repeat split; vm_compute; reflexivity. Qed.
